@@ -185,7 +185,9 @@ def walk(seed, n_nodes, flavour, length, led, tier="quick"):
                 src.compress_config = CompressConfig(CompressCriteria.fixed, max_bonddim=32)
                 A2 = LiveT(src, f"#{step}:canonical-copy", order)
                 pool.append(A2)
-                r = src.evolve(H, tau)
+                from vk.specs.walker import time_limit
+                with time_limit(30):
+                    r = src.evolve(H, tau)
                 new = LiveT(r, f"#{step}:evolve[{meth}]", order)
                 pool.append(new)
                 audit(op, f"TTNS.evolve[{meth}]", new)
